@@ -87,7 +87,9 @@ def t_reader_slice(env, out, serial):
 def t_reader_iter(env, out, serial):
     from amr_kitchen import PlotfileCooker
     pck = PlotfileCooker(env["p3"])
-    return [sorted((a.shape, a.tobytes()) for a in pck[1:][1]), list(pck["temp"][1].iter([3, 1, 0])), list(pck[:][0].iter(slice(None)))]
+    # (the ORDER in which a level iteration yields its boxes is unspecified by C15, but it is a returned value: C12 wants it
+    # to be the same for every worker count and schedule)
+    return [list(pck[1:][1]), list(pck["temp"][1].iter([3, 1, 0])), list(pck[:][0].iter(slice(None))), list(pck["density"][0])]
 
 
 def t_taste(env, out, serial):
@@ -131,6 +133,20 @@ def t_chef_cantera(env, out, serial):
     from amr_kitchen.chef import Chef
     from . import c11
     Chef(env["pthermo"], recipe="SRi", species=["O2", "H2"], outfile=out, mech=c11.MECH, pressure=2.0, serial=serial, kept_fields="temp").cook()
+
+
+def t_chef_cantera_nan(env, out, serial):
+    """a NaN temperature in one cell: whatever the tool does with it (refuse, or write something), it does the same in
+    serial and in parallel mode and under every schedule (a refusal is compared by its exception type only, its partial
+    output is removed)"""
+    from amr_kitchen.chef import Chef
+    from . import c11
+    try:
+        Chef(env["pthermo_nan"], recipe="ENT", outfile=out, mech=c11.MECH, pressure=1.0, serial=serial, kept_fields="temp").cook()
+    except Exception as e:
+        shutil.rmtree(out, ignore_errors=True)
+        return ["refused", type(e).__name__]
+    return ["cooked"]
 
 
 def t_mandoline3d(env, out, serial):
@@ -194,7 +210,7 @@ def t_chk2plt(env, out, serial):
 TOOLS = {"reader_slice": (t_reader_slice, True), "reader_iter": (t_reader_iter, False), "taste": (t_taste, False),
          "taste_bad": (t_taste_bad, False), "colander": (t_colander, False), "colander2d": (t_colander2d, False),
          "combine_byfile": (t_combine_byfile, False), "combine_bybox": (t_combine_bybox, False), "chef": (t_chef, True),
-         "chef_cantera": (t_chef_cantera, True),
+         "chef_cantera": (t_chef_cantera, True), "chef_cantera_nan": (t_chef_cantera_nan, True),
          "mandoline3d": (t_mandoline3d, True), "mandoline3d_plt": (t_mandoline3d_plt, True), "mandoline3d_far": (t_mandoline3d_far, True),
          "mandoline2d": (t_mandoline2d, True),
          "pestle": (t_pestle, False), "whip": (t_whip, False), "chk2plt": (t_chk2plt, False)}
@@ -315,6 +331,12 @@ def make_env(workdir, seed, tag=""):
     td = c11.thermo_desc(seed, 2)
     env["pthermo"] = os.path.join(workdir, "plt00030" + tag)
     write_plotfile(td, env["pthermo"], ref=c11.thermo_ref(td))
+    refn = c11.thermo_ref(td)
+    ti = td["fields"].index("temp")
+    refn.data[-1][0][(0,) * 3 + (ti,)] = float("nan")
+    refn.data[0][-1][(1,) * 3 + (ti,)] = -5.0
+    env["pthermo_nan"] = os.path.join(workdir, "plt00031" + tag)
+    write_plotfile(td, env["pthermo_nan"], ref=refn)
     env["recipe"] = os.path.join(workdir, "r.py")
     with open(env["recipe"], "w") as f:
         f.write(RECIPE)
